@@ -364,7 +364,7 @@ pub fn run(ctx: &Ctx, out: &mut Outcome) {
     let bin = ctx.hyeong_bin();
     let scratch = ctx.scratch.clone();
     let budget = t.pick(2000, 20000);
-    search::<Case12>(ctx, out, "repl-sessions", t.pick(8_000, 120_000), &strategy, &move |c, st| check(c, st, &bin, &scratch, budget, true));
+    search::<Case12>(ctx, out, "repl-sessions", t.pick(20_000, 200_000), &strategy, &move |c, st| check(c, st, &bin, &scratch, budget, true));
 }
 
 pub fn replay(ctx: &Ctx, v: &Value) -> Result<CheckResult, String> {
